@@ -18,6 +18,9 @@ SITES = {
     "extends": ("class", False, "class Z1 extends {N} {}", [("class Z1", "decl:Z1")]),
     "implements": ("class", False, "class Z1 implements {N} {}", [("class Z1", "decl:Z1")]),
     "iface_extends": ("class", False, "interface Z1 extends {N} {}", [("interface Z1", "decl:Z1")]),
+    "anon_extends": ("class", False, "$o = new class extends {N} {};", []),
+    "anon_implements": ("class", False, "$o = new class(1) implements \\Zz, {N} {};", [("\\Zz", "fq:Zz")]),
+    "anon_both": ("class", False, "$o = new class extends \\Zz implements {N} { use \\T1; };", [("\\Zz", "fq:Zz"), ("\\T1", "fq:T1")]),
     "new": ("class", False, "new {N};", []),
     "new_args": ("class", False, "$o = new {N}(1, 2);", []),
     "static_call": ("class", False, "{N}::m();", []),
